@@ -369,9 +369,10 @@ func init() {
 		Level: "exploration",
 		Plan: []planEntry{
 			{Engine: "A", Scenario: "identity", Quick: 24, Thorough: 300},
+			{Engine: "A", Scenario: "foreign-dialer", Quick: 4, Thorough: 40},
 		},
 		Rule:       "two live clusters with identical node ids on one in-memory network; seeded sequence of: a node's address rebound to the same node id of the other cluster / to another node of its own cluster while connections are pooled, resolvers returning addresses of other nodes or of the other cluster, a wire-level peer shaking hands under each of the 4 combinations of right / wrong cluster id x node id and then sending vote and timeout-now requests on the same connection, a second New+Serve and SetIdentity (same / other identity) on a directory being served (twice in a row, so that a rejected attempt that damages the lock shows), SetIdentity on a stopped node's directory and the identity read back; every request processed by a node is tied to the handshake of its connection; non-trivial if at least 4 handshakes were refused and at least 6 exclusivity attempts made; distinct = distinct abstract trace",
-		Nontrivial: all(ge("handshakes-rejected", 4), ge("exclusivity-attempts", 6)),
+		Nontrivial: either(all(ge("handshakes-rejected", 4), ge("exclusivity-attempts", 6)), all(ge("handshakes-rejected", 4), ge("foreign-dialer:leader-elected", 1))),
 		MinQuick:   12, MinThorough: 150,
 		Counters:    []string{"handshakes", "handshakes-rejected", "requests-on-identified-connections", "exclusivity-attempts", "serving-periods", "faults", "leaders-elected", "committed-entries"},
 		Prefixes:    []string{"exclusive:", "fault:"},
